@@ -833,9 +833,10 @@ class Scope:
         yield
 
     @contextlib.contextmanager
-    def loop_scope(self) -> Iterator[None]:
-        # Context manager for the subscope associated with a loop.
-        yield
+    def loop_scope(self) -> Iterator[list[SubScope]]:
+        # Context manager for the subscope associated with a loop. Scopes other than
+        # function scopes do not track subscopes; callers still iterate over the result.
+        yield []
 
     def combine_subscopes(
         self, scopes: Iterable[SubScope], *, ignore_leaves_scope: bool = False
